@@ -223,6 +223,10 @@ def main():
             still = False
         except TypeError:
             still = True
+        except Exception as e:  # noqa  (any other failure of that request is not the listed finding)
+            still = False
+            direct.append({"request": "/d.dmr", "outcome": "raised-reading-body:" + type(e).__name__, "application": "plain",
+                           "valid_constraint": True, "law": "a request is answered with 200+content type or a DAP error document; a 200 body can be read"})
         if still:
             r.known_finding("GET /d.dmr on a dataset with Structure or Sequence members raises while the DMR body is iterated "
                             "(TypeError: the DMR renderers of those types are empty), outside the handler's try block")
